@@ -246,25 +246,6 @@ pub fn lone_cr_after_line_bound_token(input: &str) -> bool {
     false
 }
 
-/// signature of a known finding: a statement holds two or more multi-line literals (no `;`
-/// between them); re-indenting the first can move the second after it was re-indented
-pub fn two_mlstr_in_statement(text: &str) -> bool {
-    let mut n = 0;
-    for t in refscan::scan(text) {
-        match t.kind {
-            RK::MlStr => {
-                n += 1;
-                if n >= 2 {
-                    return true;
-                }
-            }
-            RK::Op if t.text(text) == ";" => n = 0,
-            _ => {}
-        }
-    }
-    false
-}
-
 /// non-blank ordinal ranges of the logical lines of the given types (by pasfmt's own parse of
 /// the input; used only to compute signatures of known findings)
 pub fn line_type_nb_ranges(input: &str, types: &[pasfmt_core::prelude::LogicalLineType]) -> Vec<(usize, usize)> {
